@@ -42,13 +42,13 @@ MANIFEST = {
     },
     "C03": {
         "text": "partial_cmp, ==, <, <=, >, >=, != (same- and cross-representation), is_bot, is_top and Default of the real code are recorded for all values/pairs and compared by TLC with Cmp/IsBot/IsTop of the model; TLC checks on the model that Leq is a partial order, agrees with Join, and that IsBot/IsTop are exactly least/greatest.",
-        "note": "KNOWN FINDING uf/find/rho-cycle (comparison does not return). WithTop::is_top was fixed upstream of this check (is_top <=> None); a regression is reported as withtop/is_top/some-inner-top. Set/map/vec/union-find carriers are taken as unbounded (no greatest element).",
+        "note": "WithTop::is_top (45038df10b0) and UnionFind::find (263fd4bfaa9) were fixed after this check found them; regressions are reported as withtop/is_top/some-inner-top / uf/find/rho-cycle. Set/map/vec/union-find carriers are taken as unbounded (no greatest element).",
         "technique": _T,
         "design_ref": "DESIGN.md §6.1, §9 item 4",
     },
     "C04": {
-        "text": "Every recorded merge / merge_owned / lattice_from result of every representation is Abs-compared by TLC with the model Join; union-find: TLC model checks the implementation-shaped find/union/same/merge against the partition semantics for all scripts from the empty map and for all arbitrary parent maps (find diverges exactly on rho-shaped maps), replays every behaviour into the real UnionFind on every backing map and validates the recorded results, revealed parent maps and termination (step budget).",
-        "note": "KNOWN FINDING uf/find/rho-cycle. Union-find bounds: 3 items, scripts <= 3 calls (4 items / longer in thorough), random histories 8 items x 12 calls.",
+        "text": "Every recorded merge / merge_owned / lattice_from result of every representation is Abs-compared by TLC with the model Join; union-find: TLC model checks the implementation-shaped find/union/same/merge against the partition semantics for all scripts from the empty map and for all arbitrary parent maps (find with Brent-style cycle detection terminates on every map; the pre-fix loop diverged exactly on rho-shaped maps), replays every behaviour into the real UnionFind on every backing map and validates the recorded results, revealed parent maps and termination (step budget).",
+        "note": "uf/find/rho-cycle was fixed in 263fd4bfaa9 (a regression is reported under that fingerprint). Union-find bounds: 3 items, scripts <= 3 calls (4 items / longer in thorough), random histories 8 items x 12 calls.",
         "technique": _T,
         "design_ref": "DESIGN.md §6.1, §6.2, §9 item 1",
     },
@@ -254,10 +254,14 @@ def _body(trace):
         return [ln for ln in f if ln.strip() and '"op":"eof"' not in ln]
 
 
+def _uf_fixed():
+    return os.environ.get("VERIF_UF_FIXED", "1") != "0"
+
+
 def _uf_cfg(name, items, modes, wf, mal, emit):
-    # VERIF_UF_FIXED=1: model the candidate repair of find (Brent cycle detection) instead of the
-    # shipped loop -- only for evaluating that repair against a patched sandbox tree
-    fixed = os.environ.get("VERIF_UF_FIXED") == "1"
+    # FIXED = TRUE models the shipped find (Brent-style cycle detection, /repo 263fd4bfaa9).
+    # Dev switch VERIF_UF_FIXED=0: model the pre-fix loop 1 (diverges exactly on rho shapes).
+    fixed = _uf_fixed()
     return _cfg(name, "SPECIFICATION Spec\nCONSTANTS\n  Items = {%s}\n  MODES = {%s}\n  MaxOpsWf = %d\n  MaxOpsMal = %d\n  EMIT = %s\n  FIXED = %s\n"
                 "INVARIANTS ModelOK RhoExact NoUnwrapPanic Bounded FixedTerminates Emit\nCHECK_DEADLOCK FALSE\n"
                 % (",".join(str(i) for i in range(items)), modes, wf, mal, _tf(emit), _tf(fixed)))
@@ -289,7 +293,7 @@ def _job_uf(exe, d, thorough):
         for job, cs in ex.map(gen, plan):
             jobs.append(job)
             cases += cs
-    if not any(c["init"] for c in cases) or not (os.environ.get("VERIF_UF_FIXED") == "1" or any(-1 in c["rets"] for c in cases)):
+    if not any(c["init"] for c in cases) or not (_uf_fixed() or any(-1 in c["rets"] for c in cases)):
         raise vlib.ToolError("vacuous: no malformed / diverging union-find behaviour was generated")
     casefile = os.path.join(d, "uf_cases.ndjson")
     vlib.write_ndjson(casefile, cases)
@@ -425,7 +429,7 @@ def run(tier):
     r4.traces += uf_summ["cases"] + uf_rsumm["cases"]
     r4.evaluations += uf_summ["calls"] + uf_rsumm["calls"]
     r4.distinct_nontrivial += len({json.dumps([c["init"], c["ops"]]) for c in uf_cases if len(c["ops"]) >= 2 or c["init"]})
-    r4.samples.append({"kind": "union-find behaviour printed by TLC and replayed (rets: -1 = find diverges in the model)", **uf_cases[len(uf_cases) // 2]})
+    r4.samples.append({"kind": "union-find behaviour printed by TLC and replayed", **uf_cases[len(uf_cases) // 2]})
     r4.samples.append({"kind": "union-find behaviour on an arbitrary parent map", **[c for c in uf_cases if c["init"]][-7]})
     for dr in uf_summ["drift"][:10]:
         r4.drift.append({"kind": "call result / parent pointers differ from UnionFindImpl", **dr})
